@@ -437,3 +437,48 @@ def quantifier_shadowing(s0: int, s1: int, s2: int, n: int, k: int) -> bool:
     S = _S(s0, s1, s2, n)
     return ev(T['shadow_some'], S=S, k=k) == [x for v in S for x in (True, v)] \
         and ev(T['shadow_every'], S=S, k=k) == [True, k, any(v < k for v in S), k]
+
+
+# --- added after a defect found through C02's fragment check: multi-variable for/some/every over NODE ranges (focus of each range) -------
+
+from harness.common import L, XPathContext, pyet  # noqa: E402
+_ET = pyet()
+_P4 = (-1, 0, 1, 0)                                 # r(x(y), z)
+T.update(parse_all({
+    'for2_nodes': 'for $x in descendant-or-self::*, $y in descendant-or-self::* return concat(local-name($x), local-name($y))',
+    'for2_child': 'for $x in *, $y in * return concat(local-name($x), local-name($y), local-name(.))',
+    'for3_mixed': 'for $x in ($k, $k + 1), $y in *, $z in descendant::*[local-name() = local-name($y)] return ($x, local-name($z))',
+    'some2_nodes': 'some $x in descendant-or-self::*, $y in descendant-or-self::* satisfies (local-name($x) = "a" and local-name($y) = "b" and $x >> $y)',
+    'every2_nodes': 'every $x in descendant-or-self::*, $y in * satisfies (local-name($y) = "a" or local-name(.) = "b")',
+    'some_focus': 'some $x in descendant::* satisfies local-name(.) = "a"',
+}))
+
+
+@ob(budget=450, bound='4-element tree r(x(y), z): tags over {a,b}; k unbounded int; context item the root element or the document: for/some/every '
+                      'with 2-3 range expressions that are axis steps = the list-comprehension model (each range and the body evaluated '
+                      'with the focus of the whole expression)',
+    funcs=['elementpath/xpath_context.py:XPathContext.iter_product', 'elementpath/xpath2/_xpath2_operators.py:select__for_expression',
+           'elementpath/xpath2/_xpath2_operators.py:evaluate__quantified_expressions'])
+def multi_range_over_nodes(t0: str, t1: str, t2: str, t3: str, k: int, as_tree: bool) -> bool:
+    """
+    pre: all(len(t) == 1 and 'a' <= t <= 'b' for t in (t0, t1, t2, t3))
+    post: _
+    """
+    tags = [t0, t1, t2, t3]
+    els = [_ET.Element(t) for t in tags]
+    for i, p in enumerate(_P4):
+        if p >= 0:
+            els[p].append(els[i])
+    doc = _ET.ElementTree(els[0])
+    root = doc if as_tree else els[0]
+    # the focus is the root element in both configurations
+    run = lambda key, **v: L(T[key].evaluate(XPathContext(root, item=els[0], variables=v)))   # noqa: E731
+    kids = [1, 3]
+    desc = [1, 2, 3]
+    m_for3 = [w for x in (k, k + 1) for y in kids for z in desc if tags[z] == tags[y] for w in (x, tags[z])]
+    m_some = any(tags[i] == 'a' and tags[j] == 'b' and i > j for i in range(4) for j in range(4))
+    m_every = all(tags[j] == 'a' or tags[0] == 'b' for _ in range(4) for j in kids)
+    return run('for2_nodes') == [tags[i] + tags[j] for i in range(4) for j in range(4)] \
+        and run('for2_child') == [tags[i] + tags[j] + tags[0] for i in kids for j in kids] \
+        and run('for3_mixed', k=k) == m_for3 and run('some2_nodes') == [m_some] and run('every2_nodes') == [m_every] \
+        and run('some_focus') == [tags[0] == 'a']
